@@ -7,7 +7,7 @@ import time
 import z3
 from . import fl
 from .fl import SFloat
-from .vals import SArr, SList, SStr, SObj, interned_strings
+from .vals import SArr, SList, SStr, SObj, interned_strings, sel
 
 _OBS = []
 _CFG = {}
@@ -56,6 +56,10 @@ def _val_scalar(m, v):
         try:
             return r.as_long()
         except Exception:
+            pass
+        try:
+            return float(r.as_fraction())
+        except Exception:
             return str(r)
     return repr(v)
 
@@ -86,9 +90,9 @@ def extract_witness(m, inputs, entry_heap):
             for idx in itertools.product(*[range(s) for s in shape]):
                 iz = [z3.IntVal(i) for i in idx]
                 if v.dt == "f":
-                    cells.append(_val_float(m, SFloat(z3.Select(h[0], *iz), z3.Select(h[1], *iz))))
+                    cells.append(_val_float(m, SFloat(sel(h[0], iz), sel(h[1], iz))))
                 else:
-                    cells.append(_val_scalar(m, z3.Select(h, *iz)))
+                    cells.append(_val_scalar(m, sel(h, iz)))
             rec["data"] = cells
             out[name] = rec
         elif k == "flist":
@@ -121,13 +125,27 @@ def _solve_one(i):
     timeout_ms = _CFG.get("timeout_ms", 20000)
     t0 = time.time()
     s = z3.Solver()
-    s.set("timeout", min(timeout_ms, 3000) if ob.expect_sat else timeout_ms)
+    first = min(timeout_ms, 3000) if (ob.expect_sat or _CFG.get("cvc5", True)) else timeout_ms
+    s.set("timeout", first)
+    seen_h = set()
     for h in ob.formula():
-        s.add(h)
+        if h.get_id() not in seen_h:
+            seen_h.add(h.get_id())
+            s.add(h)
     try:
         r = s.check()
     except z3.Z3Exception as e:
         return (i, "error", time.time() - t0, "z3", str(e), None)
+    if r == z3.unknown and not ob.expect_sat and _CFG.get("cvc5", True):
+        # schedule: z3 3 s -> cvc5 (full budget) -> z3 (full budget)
+        r2, d2 = run_cvc5(s.to_smt2(), max(5, timeout_ms // 1000))
+        if r2 == "unsat":
+            return (i, "unsat", time.time() - t0, "cvc5", d2, None)
+        s.set("timeout", timeout_ms)
+        try:
+            r = s.check()
+        except z3.Z3Exception as e:
+            return (i, "error", time.time() - t0, "z3", str(e), None)
     res = str(r)
     backend = "z3"
     if ob.expect_sat and r == z3.unknown:
@@ -168,18 +186,85 @@ def _solve_one(i):
         detail = ""
     elif r == z3.unknown:
         detail = s.reason_unknown()
-        if _CFG.get("cvc5", True):
-            r2, d2 = run_cvc5(s.to_smt2(), max(5, timeout_ms // 1000))
-            if r2 in ("sat", "unsat"):
-                res = r2
-                backend = "cvc5"
-                detail = d2
     return (i, res, time.time() - t0, backend, detail, wit)
+
+
+def _parse_sexprs(text):
+    """minimal s-expression reader: nested python lists of atom strings"""
+    out, stack, i, n = [], [], 0, len(text)
+    cur = out
+    while i < n:
+        c = text[i]
+        if c == ";":
+            while i < n and text[i] != "\n":
+                i += 1
+        elif c == "(":
+            new = []
+            cur.append(new)
+            stack.append(cur)
+            cur = new
+            i += 1
+        elif c == ")":
+            cur = stack.pop()
+            i += 1
+        elif c.isspace():
+            i += 1
+        elif c == "|":
+            j = text.index("|", i + 1)
+            cur.append(text[i:j + 1])
+            i = j + 1
+        elif c == '"':
+            j = text.index('"', i + 1)
+            cur.append(text[i:j + 1])
+            i = j + 1
+        else:
+            j = i
+            while j < n and not text[j].isspace() and text[j] not in "()":
+                j += 1
+            cur.append(text[i:j])
+            i = j
+    return out
+
+
+def _nest(e):
+    if not isinstance(e, list):
+        return e
+    e = [_nest(x) for x in e]
+    if e and e[0] == "Array" and len(e) > 3:
+        r = e[-1]
+        for d in reversed(e[1:-1]):
+            r = ["Array", d, r]
+        return r
+    if e and e[0] == "select" and len(e) > 3:
+        r = e[1]
+        for i in e[2:]:
+            r = ["select", r, i]
+        return r
+    if e and e[0] == "store" and len(e) > 4:
+        a, idx, v = e[1], e[2:-1], e[-1]
+
+        def st(a, idx):
+            if len(idx) == 1:
+                return ["store", a, idx[0], v]
+            return ["store", a, idx[0], st(["select", a, idx[0]], idx[1:])]
+        return st(a, idx)
+    return e
+
+
+def _unparse(e):
+    if isinstance(e, list):
+        return "(" + " ".join(_unparse(x) for x in e) + ")"
+    return e
+
+
+def nest_arrays(smt2):
+    """rewrite z3's multi-index arrays into nested SMT-LIB arrays (cvc5 accepts only those)"""
+    return "\n".join(_unparse(_nest(x)) for x in _parse_sexprs(smt2))
 
 
 def run_cvc5(smt2, tlimit_s):
     with tempfile.NamedTemporaryFile("w", suffix=".smt2", delete=False) as f:
-        f.write("(set-logic ALL)\n" + smt2)
+        f.write("(set-logic ALL)\n" + nest_arrays(smt2))
         path = f.name
     try:
         p = subprocess.run(["/usr/bin/cvc5", "--tlimit=%d" % (tlimit_s * 1000), "--nl-ext-tplanes", path],
